@@ -995,6 +995,24 @@ var progress struct {
 	phase string
 }
 
+// stalled waits for done; it returns true if the item made no progress (no new step, no new phase) for
+// behaviourTimeout, false as soon as done is signalled.
+func stalled(done <-chan struct{}) bool {
+	lastSeen, lastChange := progress, time.Now()
+	for {
+		select {
+		case <-done:
+			return false
+		case <-time.After(2 * time.Second):
+		}
+		if cur := progress; cur.step != lastSeen.step || cur.phase != lastSeen.phase {
+			lastSeen, lastChange = cur, time.Now()
+		} else if time.Since(lastChange) >= behaviourTimeout {
+			return true
+		}
+	}
+}
+
 func runGuarded(b *Behaviour, ks *sut.KeySet, work string) BehResult {
 	done := make(chan BehResult, 1)
 	go func() { done <- RunBehaviour(b, ks, work) }()
